@@ -125,3 +125,130 @@ def t7_requests(rng, quick):
             else: argv.append(rng.choice(VALS))
         add(argv, rng.randint(0, 1), rng.choice([None, None, b"c", b"shell", b"bogus", b"literal", b"shell-always", b""]), m=("random",))
     return reqs, meta, opts
+
+
+# ---- T8: the whole program (sb_patch in a scratch tree) vs the Lean driver model ---------------------------------------
+def enc_tree(tree):
+    parts = [str(len(tree))]
+    for p in sorted(tree):
+        n = tree[p]
+        if n[0] == "f": parts.append(f"{gen.hexb(p)} f {gen.hexb(n[1])} {n[2]}")
+        elif n[0] == "d": parts.append(f"{gen.hexb(p)} d x {n[1]}")
+        elif n[0] == "l": parts.append(f"{gen.hexb(p)} l {gen.hexb(n[1])} 0")
+        else: parts.append(f"{gen.hexb(p)} p x {n[1]}")
+    return " ".join(parts)
+
+
+def full_tree(tree):
+    """add the implicit parent directories (mode 0755 as box.materialize creates them)"""
+    t = dict(tree)
+    for p in list(tree):
+        parts = p.split(b"/")
+        for i in range(1, len(parts)):
+            d = b"/".join(parts[:i])
+            if d not in t:
+                t[d] = ("d", 0o755)
+    return t
+
+
+def enc_drive(tree, argv, stdin=b"", tty=None, uid=0, posixly=0):
+    t = "notty" if tty is None else "tty " + " ".join([str(len(tty))] + [gen.hexb(a) for a in tty])
+    return f"drive {enc_tree(full_tree(tree))} {1 if uid == 0 else 0} {gen.hexb(stdin)} {t} {posixly} {len(argv)} {' '.join(gen.hexb(a) for a in argv)}".replace("  ", " ").rstrip()
+
+
+def canon_real(r):
+    """canonical outcome of a real run, in the vocabulary of the model's `drive` response"""
+    import drv, re as _re
+    nodes = []
+    for p, v in r.after.items():
+        if v[0] == "f": nodes.append(f"{gen.hexb(p)}:f:{gen.hexb(v[1])}:{v[2]}")
+        elif v[0] == "d": nodes.append(f"{gen.hexb(p)}:d:x:{v[2]}")
+        elif v[0] == "l": nodes.append(f"{gen.hexb(p)}:l:{gen.hexb(v[1])}:0")
+        else: nodes.append(f"{gen.hexb(p)}:p:x:{v[2]}")
+    nodes.sort(key=lambda s: s.split(":")[0])
+    ev = []
+    out = r.stdout if not (r.stdout and False) else r.stdout
+    for e in drv.verdicts(r.stdout + (b"\n" + r.stderr if b"patching file" in r.stderr or b"Hunk #" in r.stderr else b"")):
+        if e[0] == "file":
+            name = _re.sub(rb" \((renamed|copied|read|already renamed) from .*\)$", b"", e[1])
+            ev.append("file:" + gen.hexb(name))
+        elif e[0] == "hunk": ev.append(f"hunk:{e[1]}:{e[2]}:{e[3]}:{e[4]}:{e[5]}")
+        elif e[0] == "failed": ev.append(f"failed:{e[1]}:{e[2]}:{e[3]}:{gen.hexb(e[4]) if e[4] else '-'}")
+        else: ev.append(e[0])
+    return r.exit, ",".join(nodes), ",".join(ev)
+
+
+def parse_drive(y):
+    d = {}
+    for kv in y.split(" "):
+        k, _, v = kv.partition("=")
+        d[k] = v
+    return d
+
+
+def t8(R, name, cs, keep_strace=False):
+    """cs: list of dict(tree, argv, stdin?, tty?, uid?) -> list of (case, real result, model response dict)"""
+    import drv
+    jobs = [dict(cut=R.cut, tree=c["tree"], argv=c["argv"], stdin=c.get("stdin", b""), tty=c.get("tty"), uid=c.get("uid", 0),
+                 strace=({"trace": True} if keep_strace else None)) for c in cs]
+    res = drv.run_many(jobs)
+    reqs = [enc_drive(c["tree"], c["argv"], c.get("stdin", b""), c.get("tty"), c.get("uid", 0)) for c in cs]
+    rm = R.model(reqs)
+    st = R.ties.setdefault(name, {"requests": 0, "disagreements": 0, "nontrivial": 0, "kinds": {}})
+    outs = []
+    for c, r, q, y in zip(cs, res, reqs, rm):
+        st["requests"] += 1; R.evaluations += 1
+        m = parse_drive(y)
+        ex, tree, ev = canon_real(r)
+        k = f"exit{ex}"
+        st["kinds"][k] = st["kinds"].get(k, 0) + 1
+        if "hunk:" in ev or "file:" in ev:
+            st["nontrivial"] += 1
+            R.nontrivial.add(hash(q))
+        diffs = []
+        if str(ex) != m.get("exit"): diffs.append(f"exit {ex} vs model {m.get('exit')}")
+        if "cmdline" not in m:
+            if tree != m.get("tree"): diffs.append("final tree differs")
+            mev = m.get("ev", "")
+            # an exception ends the run: what was printed just before it is not part of the model's event list
+            if ev != mev and not (ex == 2 and ev.startswith(mev)): diffs.append("events differ")
+        if diffs:
+            st["disagreements"] += 1
+            R.violations.append({"kind": "tie-broken", "tie": name, "request": q, "implementation": f"exit={ex} tree={tree} ev={ev}",
+                                 "model": y[:6000], "no_input": True, "what": "; ".join(diffs),
+                                 "stdout": r.stdout.decode("latin1")[-500:], "stderr": r.stderr.decode("latin1")[-300:],
+                                 "summary": f"tie {name}: model and sb_patch disagree ({'; '.join(diffs)})"})
+        outs.append((c, r, m))
+    if cs and len(R.samples) < 8:
+        R.samples.append({"tie": name, "argv": [a.decode("latin1") for a in cs[0]["argv"]], "exit": res[0].exit, "model": rm[0][:300]})
+    return outs
+
+
+def t9(R, name, cs):
+    """T9: the model's trace of mutating operations equals the strace trace of the real run, operation by operation"""
+    import drv, straceparse, os, shutil
+    jobs = [dict(cut=R.cut, tree=c["tree"], argv=c["argv"], stdin=c.get("stdin", b""), tty=c.get("tty"), uid=c.get("uid", 0),
+                 strace={"trace": True}, keep=True) for c in cs]
+    res = drv.run_many(jobs)
+    reqs = [enc_drive(c["tree"], c["argv"], c.get("stdin", b""), c.get("tty"), c.get("uid", 0)) for c in cs]
+    rm = R.model(reqs)
+    st = R.ties.setdefault(name, {"requests": 0, "disagreements": 0, "nontrivial": 0, "kinds": {}, "operations compared": 0})
+    outs = []
+    for c, r, q, y in zip(cs, res, reqs, rm):
+        top = os.path.dirname(r.root)
+        ops = straceparse.parse(r.strace or b"", r.root, os.path.join(top, "tmp"))
+        shutil.rmtree(top, ignore_errors=True)
+        m = parse_drive(y)
+        mt = [o for o in m.get("trace", "").split(",") if o]
+        st["requests"] += 1; R.evaluations += 1
+        st["operations compared"] += len(ops)
+        if any(not o.startswith("tmp-") for o in ops):
+            st["nontrivial"] += 1; R.nontrivial.add(hash(q))
+        if ops != mt:
+            st["disagreements"] += 1
+            i = next((k for k, (a, b) in enumerate(zip(ops + ["<end>"] * 50, mt + ["<end>"] * 50)) if a != b), 0)
+            R.violations.append({"kind": "tie-broken", "tie": name, "request": q, "implementation": ",".join(ops)[:4000], "model": ",".join(mt)[:4000],
+                                 "no_input": True, "what": f"operation {i}: real {(ops + ['<end>'])[i][:80] if i < len(ops) + 1 else '<end>'} / model {(mt + ['<end>'])[i][:80] if i < len(mt) + 1 else '<end>'}",
+                                 "summary": f"tie {name}: the model's trace of mutating operations differs from the strace trace at operation {i}"})
+        outs.append((c, r, m, ops))
+    return outs
